@@ -2,6 +2,7 @@ package an
 
 import (
 	"fmt"
+	"go/constant"
 	"go/token"
 	"go/types"
 	"regexp"
@@ -173,11 +174,19 @@ func (df *DriverFacts) traces(fn *ssa.Function, iface *types.Interface) ([][]str
 			}
 			if callee := c.Call.StaticCallee(); callee != nil {
 				if k, ok := df.rec[callee]; ok && len(c.Call.Args) >= 2 {
+					// the "value used" flag handed down: operands are used by the construct that evaluates them
 					flag := ""
-					if len(c.Call.Args) >= 3 {
-						if kk, ok := c.Call.Args[2].(*ssa.Const); ok && kk.Value != nil && isBool(kk.Type()) {
-							flag = ""
-							_ = kk
+					if len(c.Call.Args) >= 3 && isBool(c.Call.Args[2].Type()) {
+						switch kk := c.Call.Args[2].(type) {
+						case *ssa.Const:
+							if kk.Value != nil && !constant.BoolVal(kk.Value) {
+								flag = "{unused}"
+							}
+						default:
+							flag = "{" + kk.Name() + "}"
+							if p, ok := kk.(*ssa.Parameter); ok {
+								flag = "{" + p.Name() + "}"
+							}
 						}
 					}
 					events[b] = append(events[b], k+"("+accessorPath(c.Call.Args[1], node, 0)+")"+flag)
@@ -419,7 +428,7 @@ var protoSpec = map[string]string{
 	"VariableEvaluation":               `^conv\(VarEvaluation\)$`,
 	"SliceEvaluation":                  `^eval\(Value\) eval\(Index\) conv\(SliceEvaluation\)$`,
 	"StringSubscript":                  `^eval\(StartIndex\) (eval\(EndIndex\) )?eval\(Value\) conv\(StringSubscript\)$`,
-	"Group":                            `^eval\(Child\)$`,
+	"Group":                            `^eval\(Child\)\{valueUsed\}$`,
 	"Return":                           `^(eval\(Values\[\*\]\) )*conv\(Return\)$`,
 	"FunctionDefinition":               `^conv\(FuncStart\) block\(self\) conv\(FuncEnd\)$`,
 	"FunctionCall":                     `^(eval\(Args\[\*\]\) )*conv\(FuncCall\)$`,
